@@ -649,3 +649,11 @@ TRIAGE[("C16", "R7",
     "replayed": "MultiplierFactory().make_multiplier(Bernoulli(), "
                 "QuantizedBits bits=8 int_bits=4).output.int_bits == 1 on "
                 "the real code before the fix, 4 with Binary(use_01=True)"}
+TRIAGE[("C01", "R4", "qkeras/quantizers.py::quantized_bits.range",
+        "range!=reachable-set")] = {
+    "what_fails": "for the signed 1-bit format quantized_bits(1, i, 0) the "
+                  "quantizer is the documented two-valued special case and "
+                  "emits {-1, +1} (min()/max() say so too), but range() "
+                  "still enumerates the two's-complement grid {0, -2**i}",
+    "replayed": "quantized_bits(1,0,0).range() == [0., -1.] while the "
+                "outputs on linspace(-3,3) are {-1.0, 1.0} (real code)"}
